@@ -123,7 +123,7 @@ theorem posq_same (s : PSys) (hI : InvA s) (i : Nat) (extra : List OMsg)
   · exact hx t c lt li hm
 
 set_option maxHeartbeats 800000 in
-theorem invA_step (c0 : Cfg) (s s' : PSys) (e : Event) (hV : InvV c0 (vsys s)) (hR : InvR s) (hI : InvA s)
+theorem invA_step (c0 : Cfg) (s s' : PSys) (e : Event) (hV : InvV (vsys s)) (hR : InvR s) (hI : InvA s)
     (h : applyEvent s e = .ok s') : InvA s' := by
   cases e with
   | bump i t =>
@@ -461,9 +461,11 @@ theorem invA_step (c0 : Cfg) (s s' : PSys) (e : Event) (hV : InvV c0 (vsys s)) (
       · intro hu; cases hu
     · cases h
 
-theorem invA_reach (c0 : Cfg) (s : PSys) (h : ReachC c0 s) : InvA s := by
+theorem invA_reachR (s : PSys) (h : Reach s) : InvA s := by
   induction h with
   | init => exact invA_init
-  | step e hr _ hstep ih => exact invA_step c0 _ _ e (invV_reach c0 _ hr) (invR_reach c0 _ hr) ih hstep
+  | step e hr hstep ih => exact invA_step ⟨[], []⟩ _ _ e (invV_reachR _ hr) (invR_reachR _ hr) ih hstep
+
+theorem invA_reach (c0 : Cfg) (s : PSys) (h : ReachC c0 s) : InvA s := invA_reachR s (reach_of_reachC h)
 
 end RaftModel.P
